@@ -109,12 +109,12 @@ func vrfH_C16clone() {
 		get := []func() map[string]string{an.ParameterPatterns, an.HeaderPatterns, an.ItemsPatterns, an.SchemaPatterns, an.AllPatterns}[which]
 		m := get()
 		first := vrfDeepCopy(m).(map[string]string)
-		m[k1] = "injected"
 		delete(m, k2)
 		for k := range m {
 			delete(m, k)
 			break
 		}
+		m[k1] = "injected"
 		vrfAssert("pattern-map-is-a-copy", vrfDeepEqual(get(), first))
 		vrfCover("map-non-empty", len(first) > 0)
 		vrfCover("map-empty", len(first) == 0)
@@ -122,12 +122,12 @@ func vrfH_C16clone() {
 		get := []func() map[string][]interface{}{an.ParameterEnums, an.HeaderEnums, an.ItemsEnums, an.SchemaEnums, an.AllEnums}[which-5]
 		m := get()
 		first := vrfDeepCopy(m).(map[string][]interface{})
-		m[k1] = []interface{}{"injected"}
 		delete(m, k2)
 		for k := range m {
 			delete(m, k)
 			break
 		}
+		m[k1] = []interface{}{"injected"}
 		vrfAssert("enum-map-is-a-copy", vrfDeepEqual(get(), first))
 		vrfCover("map-non-empty", len(first) > 0)
 		vrfCover("map-empty", len(first) == 0)
